@@ -36,6 +36,8 @@ BASES = [
     'name t\nversion 0.1\n\nint array M =\n    1, 2, 3\nG(M, k=[]) | 0, 1\nH(1,) | [2]\n',
     'name z\nversion 1.0\ntarget X8_01\nfor str w in "a", "b"\n\tG(w) | 0\n\n\tH | 1\nK(-2**2/3 + sin(1)) | 0\n',
     '\n\nname e\n\nversion 2.0\n\n\nfloat array Q[1, 1] =\n    {Q}\nG(Q) | 0',
+    # grammatical (the name rule admits reserved words and registers; refusing them is the semantic stage's business)
+    'name r\nversion 1.0\nfloat q0 = 0.5\nint name = 2\ncomplex array version =\n    1, 2\nstr type = "50%"\nG("%d items", k="{0}") | 0\n',
 ]
 
 
@@ -107,6 +109,20 @@ def rebuild(text, toks, new):
     return "".join(out)
 
 
+STR_SAMPLES = ['""', '"s"', '"50%"', '"%d items"', '"%s"', '"{0}"', '"a b"', '"#"', '"100%% {x}"']
+
+
+def pick(rng, samples, names):
+    n = rng.choice(names)
+    if n == "STR":
+        return rng.choice(STR_SAMPLES)
+    if n == "NAME" and rng.random() < 0.3:
+        return rng.choice(["foo", "x1", "Sgate", "alpha_2", "e", "j"])
+    if n == "ANY" and rng.random() < 0.5:
+        return rng.choice(["$", "%", "@", ";", "~", "`", "?", "&", "!", "\\", "^", "'"])
+    return samples[n]
+
+
 def mutants(rng, g, text, toks, samples, k):
     """k random single-token mutants (kind, text)."""
     names = [n for n in g.token_names if n not in ("SPACE", "COMMENT")]
@@ -118,9 +134,9 @@ def mutants(rng, g, text, toks, samples, k):
         if kind == "delete":
             new = toks[:i] + toks[i + 1 :]
         elif kind == "substitute":
-            new = toks[:i] + [samples[rng.choice(names)]] + toks[i + 1 :]
+            new = toks[:i] + [pick(rng, samples, names)] + toks[i + 1 :]
         elif kind == "insert":
-            new = toks[:i] + [samples[rng.choice(names)]] + toks[i:]
+            new = toks[:i] + [pick(rng, samples, names)] + toks[i:]
         elif kind == "swap":
             if i + 1 >= n:
                 continue
@@ -232,6 +248,7 @@ def run(ctx):
     samples["NAME"] = "foo"
     samples["DEVICE"] = "a.b"
     samples["ANY"] = "$"
+    str_samples = ['""', '"s"', '"50%"', '"%d items"', '"%s"', '"{0}"', '"a b"', '"\\"', '"#"']
     bases = list(BASES) + [e["text"] for e in common.corpus(ID) if e.get("base")]
     if ctx.worker == 0:
         for e in common.corpus(ID):
@@ -259,7 +276,7 @@ def run(ctx):
         if c < 0.12:
             # token soup
             n = rng.randint(1, 25)
-            text = " ".join(samples[rng.choice(g.token_names)] for _ in range(n))
+            text = " ".join(pick(rng, samples, g.token_names) for _ in range(n))
             check_text(ctx, text, tags=["soup:tokens"], via_load=rng.random() < 0.1 and text.isascii())
             done += 1
             continue
